@@ -66,6 +66,9 @@ pub fn level_of(id: &str) -> &'static str {
 }
 
 pub fn replay_one(ctx: &Ctx, doc: &ReplayDoc) {
+    if doc.sub.starts_with("fuzz:") {
+        return crate::fuzz::replay_one(ctx, doc);
+    }
     match doc.property.as_str() {
         "C13" => c13::replay_one(ctx, doc),
         "C08" | "C09" | "C10" => envelope_props::replay_one(ctx, doc),
